@@ -34,14 +34,13 @@ TReset == /\ Is("Reset")
 
 -----------------------------------------------------------------------------
 (* operations: the recorded event is turned into the step S = [endpoints -> op] of Registry   *)
-OpEvents == {"Reg", "Fail", "Rm", "Burst", "Par"}
+OpEvents == {"Reg", "Fail", "Rm", "Par"}   \* a burst is recorded as two "Reg" without a dump between
 ParEps(ops) == {ops[i].e : i \in 1..Len(ops)}
 ParOp(o) == IF o.op = "Reg" THEN OpReg(Listing(o.L)) ELSE IF o.op = "Rm" THEN OpRm ELSE OpNone("Fail")
 ParS(ops) == [e \in ParEps(ops) |-> ParOp(ops[CHOOSE i \in 1..Len(ops) : ops[i].e = e])]
 EvS == CASE E.ev = "Reg"   -> E.e :> OpReg(Listing(E.L))
          [] E.ev = "Fail"  -> E.e :> OpNone("Fail")
          [] E.ev = "Rm"    -> E.e :> OpRm
-         [] E.ev = "Burst" -> E.e :> OpReg(Listing(E.L2))
          [] E.ev = "Par"   -> ParS(E.ops)
 EvWellFormed == IF E.ev = "Par"
                 THEN Cardinality(ParEps(E.ops)) = Len(E.ops) /\ \A i \in 1..Len(E.ops) : E.ops[i].op \in {"Reg", "Rm", "Fail"}
@@ -52,7 +51,6 @@ OpCore == /\ l <= NEv /\ E.ev \in OpEvents /\ EvWellFormed
           /\ DOMAIN EvS \subseteq Eps
           /\ act' = E.ev /\ Apply(EvS)
           /\ pend' = pend \cup PendOf(EvS)
-                     \cup (IF E.ev = "Burst" THEN Pairs(E.e, OpNames(E.e, OpReg(Listing(E.L1)))) ELSE {})
           /\ Consume
 TOp == OpCore /\ ustore' = {p \in ustore : p[2] \notin Removed(EvS)}
 
@@ -79,12 +77,21 @@ LookupsOK(U) == \A i \in 1..Len(E.look) :
                    /\ AvailOK(k.m, k.avail, idx \cap AllPairs, idx \cup U \cup ustore')
 UnifiedOK(U) == E.hasUni => UComplete(E.uni) /\ USound(E.uni, U)
 
-DumpWith(Q) == /\ Is("Dump") /\ E.quiet
-               /\ Q /\ act' = "Dump" /\ pend' = {}
-               /\ ustore' = {p \in ustore : p[2] \notin dirty} \cup UNION {Pairs(e, last[e]) : e \in dirty}
-               /\ BaseViewsOK /\ LookupsOK(uni') /\ UnifiedOK(uni')
-               /\ Consume
-TDump == DumpWith(Quiesce)
+\* mo / rs: the two known-finding variants of the merge (both FALSE = the specified merge)
+StrictUni     == {p \in uni : p[2] \notin dirty} \cup UNION {Pairs(e, last[e]) : e \in dirty}
+MergeOnlyUni  == uni \cup pend
+Resurrected   == {p \in ustore : p[1] \notin last[p[2]] /\ \E r \in pend : LowerS(r[1]) = LowerS(p[1])}
+QuiesceWith(mo, rs) ==
+    /\ uni' = (IF mo THEN MergeOnlyUni ELSE StrictUni) \cup (IF rs THEN Resurrected ELSE {})
+    /\ dirty' = {}
+    /\ UNCHANGED <<flt, last, lastN, known, perEp, idx>>
+DumpWith(mo, rs) ==
+    /\ Is("Dump") /\ E.quiet
+    /\ QuiesceWith(mo, rs) /\ act' = "Dump" /\ pend' = {}
+    /\ ustore' = {p \in ustore : p[2] \notin dirty} \cup UNION {Pairs(e, last[e]) : e \in dirty}
+    /\ BaseViewsOK /\ LookupsOK(uni') /\ UnifiedOK(uni')
+    /\ Consume
+TDump == DumpWith(FALSE, FALSE)
 
 -----------------------------------------------------------------------------
 (* Known findings (each only if listed in KnownDeviations)                                     *)
@@ -109,19 +116,21 @@ KF_C10_1 == /\ "KF-C10-1" \in KnownDeviations
 (* (unifyModelsAsync: group + MergeUnifiedModels with the stored entry) and never removes the  *)
 (* endpoint from entries of models it no longer lists; only RemoveEndpoint does.  The merge    *)
 (* is add-only: everything registered since the last dump is added, nothing is dropped.        *)
-MergeOnlyQuiesce == /\ uni' = uni \cup pend
-                    /\ dirty' = {}
-                    /\ UNCHANGED <<flt, last, lastN, known, perEp, idx>>
-KF_C10_2 == /\ "KF-C10-2" \in KnownDeviations /\ variant = "unified"
-            /\ \E p \in uni \cup pend : p[2] \in dirty /\ p[1] \notin last[p[2]]
-            /\ DumpWith(MergeOnlyQuiesce)
-            /\ UseDeviation("KF-C10-2")
-
+(*                                                                                             *)
 (* KF-C10-4: UnifiedMemoryModelRegistry.RemoveEndpoint cleans the global unified entries but   *)
-(* never tells the unifier, whose own catalogue keeps the removed endpoint's models; the       *)
-(* registry's IsModelAvailable / GetEndpointsForModel fall back to that catalogue              *)
-(* (GetUnifiedModel -> unifier.ResolveAlias) and keep finding them.                            *)
-KF_C10_4 == /\ "KF-C10-4" \in KnownDeviations /\ variant = "unified"
+(* never tells the unifier, whose own catalogue (ustore) keeps the removed endpoint's models.  *)
+(* (a) the registry's IsModelAvailable / GetEndpointsForModel fall back to that catalogue      *)
+(* (GetUnifiedModel -> unifier.ResolveAlias) and keep finding them; (b) the next merge of a    *)
+(* model with the same (case-folded) name copies the unifier's entry -- removed endpoint       *)
+(* included -- back into the global catalogue.                                                 *)
+Listed(id) == id \in KnownDeviations /\ variant = "unified"
+KF_Dump == \E mo \in (IF Listed("KF-C10-2") THEN BOOLEAN ELSE {FALSE}) :
+           \E rs \in (IF Listed("KF-C10-4") THEN BOOLEAN ELSE {FALSE}) :
+              /\ mo \/ rs
+              /\ mo => MergeOnlyUni # StrictUni /\ UseDeviation("KF-C10-2")
+              /\ rs => Resurrected # {} /\ UseDeviation("KF-C10-4")
+              /\ DumpWith(mo, rs)
+KF_C10_4 == /\ Listed("KF-C10-4")
             /\ OpCore /\ \E p \in ustore : p[2] \in Removed(EvS)
             /\ UNCHANGED ustore /\ UseDeviation("KF-C10-4")
 
@@ -129,7 +138,7 @@ TraceInit == /\ flt = [e \in Eps |-> NoFilter]
              /\ last = [e \in Eps |-> {}] /\ lastN = [e \in Eps |-> 0] /\ known = {}
              /\ perEp = [e \in Eps |-> {}] /\ idx = {} /\ uni = {} /\ dirty = {}
              /\ act = "Init" /\ scn = <<>> /\ l = 1 /\ variant = "none" /\ pend = {} /\ ustore = {}
-TraceNext == TReset \/ TOp \/ TBad \/ TDump \/ KF_C10_1 \/ KF_C10_2 \/ KF_C10_4
+TraceNext == TReset \/ TOp \/ TBad \/ TDump \/ KF_C10_1 \/ KF_Dump \/ KF_C10_4
 TraceSpec == TraceInit /\ [][TraceNext]_tvars
 HW == HWMark(l)
 
